@@ -46,6 +46,8 @@ func init() {
 			Old: "'\"%s\".\"log_id_%d\"', \n\t\t\t\t\t\t(\n\t\t\t\t\t\t\tselect max(id) from \"%s\".logs where ledger = '%s'", New: "'\"%s\".\"log_id_%d\"', \n\t\t\t\t\t\t(\n\t\t\t\t\t\t\tselect max(id) from \"%s\".transactions where ledger = '%s'", Expect: "SEQ/resync"},
 	)
 	addBreakers("C13",
+		Breaker{Name: "script-vars-in-map-order", File: "internal/controller/ledger/numscript.go",
+			Old: "\tfor _, v := range monVars {\n\t\tsb.WriteString(fmt.Sprintf(\"\\tmonetary $%s\\n\", v))\n\t}", New: "\t_ = monVars\n\tfor _, v := range monetaryToVars {\n\t\tsb.WriteString(fmt.Sprintf(\"\\tmonetary $%s\\n\", v.name))\n\t}", Expect: "DET/script-text"},
 		Breaker{Name: "ik-index-not-unique", File: "internal/storage/bucket/migrations/8-ik-ledger-unique-index/up.sql",
 			Old: "create unique index", New: "create index", Expect: "CAT/ik-index"},
 		Breaker{Name: "ik-hit-without-hash-comparison", File: "internal/controller/ledger/log_process.go",
@@ -538,6 +540,7 @@ func checkC13(c *core.Ctx) {
 	ruleForgeLogIK(c)
 	ruleRequestInputNotMutated(c)
 	ruleIKLookupColumns(c)
+	ruleScriptTextDeterministic(c)
 	ruleUniqueContinuity(c, "CAT/unique-continuity", "logs")
 	ruleErrorChainKept(c)
 	// HTTP
@@ -576,7 +579,7 @@ func ruleForgeLogIK(c *core.Ctx) {
 	fetch := callsTo(info, d.Decl.Body, named("fetchLogWithIK"))
 	run := callsTo(info, d.Decl.Body, named("runLog"))
 	if len(fetch) == 0 && len(run) >= 1 {
-		c.Fail("DOM/ik-lookup-first", key+":lookup-guard", pos(c, d.Decl), "forgeLog no longer looks the idempotency key up (fetchLogWithIK) before running the operation")
+		failOrGone(c, pkgCtrl, "fetchLogWithIK", "DOM/ik-lookup-first", key+":lookup-guard", pos(c, d.Decl), "forgeLog no longer looks the idempotency key up (fetchLogWithIK) before running the operation")
 	} else if len(fetch) != 1 || len(run) != 1 {
 		c.Unrecognised("DOM/ik-lookup-first", key+":anchors", pos(c, d.Decl), fmt.Sprintf("expected one fetchLogWithIK and one runLog call in forgeLog, found %d and %d", len(fetch), len(run)))
 	} else {
@@ -731,7 +734,7 @@ func ruleForgeLogIK(c *core.Ctx) {
 		}
 		switch {
 		case len(rejects) == 0:
-			c.Fail("DOM/ik-hash-compared", declKey(f), pos(c, f.Decl), "fetchLogWithIK no longer rejects a reused key whose input hash differs from the stored one (no ErrInvalidIdempotencyInput raised)")
+			failOrGone(c, pkgCtrl, "newErrInvalidIdempotencyInputs", "DOM/ik-hash-compared", declKey(f), pos(c, f.Decl), "fetchLogWithIK no longer rejects a reused key whose input hash differs from the stored one (no ErrInvalidIdempotencyInput raised)")
 		case !compared && opq:
 			c.Unrecognised("DOM/ik-hash-compared", declKey(f), pos(c, f.Decl), "the rejection is guarded by conditions the rule does not read")
 		default:
